@@ -1,10 +1,12 @@
 #![feature(allocator_api)]
 #![allow(unused_imports, dead_code, unused_variables, unused_mut, non_snake_case)]
 use vstd::prelude::*;
+use vstd::string::*;
 use vstd::std_specs::iter::{IteratorSpec, IteratorSpecImpl};
 use core::convert::{TryFrom, TryInto};
 use std::sync::Arc;
 use core::ops::Shr;
+use core::marker::PhantomData;
 verus! {
 global size_of usize == 8;
 
